@@ -129,10 +129,10 @@ const GRID_CASES: u64 = 5 * 3 * 3; // thing x speed x ibs
 const E2_CASES: u64 = 3;
 const E2S_CASES: u64 = 2;
 /// cancellation family: 3 clocks, every subset dropped, x waiting thing {static, streaming, paused static, paused streaming, resume_at}
-const CANCEL_CASES: u64 = 6;
+const CANCEL_CASES: u64 = 7;
 /// a clock whose speed is linked to a modulator: the change of the modulator reaches the clock in the same internal buffer
 const MODSPEED_CASES: u64 = 3;
-const CANCEL_NAMES: [&str; 6] = ["static sound waiting to start", "streaming sound waiting to start", "static sound waiting to start, paused meanwhile", "streaming sound waiting to start, paused meanwhile", "paused static sound waiting to resume (resume_at)", "playing static sound whose mute (instant volume tween to silence) is scheduled on the clock: never muted once the clock is gone"];
+const CANCEL_NAMES: [&str; 7] = ["static sound waiting to start", "streaming sound waiting to start", "static sound waiting to start, paused meanwhile", "streaming sound waiting to start, paused meanwhile", "paused static sound waiting to resume (resume_at)", "playing static sound whose mute (instant volume tween to silence) is scheduled on the clock: never muted once the clock is gone", "streaming sound waiting to start whose decoder has delivered nothing yet (it delivers only after the 8 callbacks)"];
 
 fn hist_depth(tier: Tier) -> usize {
 	tier.pick(5, 6)
@@ -229,7 +229,7 @@ impl Check for C05 {
 			}
 		} else if idx >= hist_cases() + GRID_CASES + E2_CASES + E2S_CASES {
 			let w = idx - hist_cases() - GRID_CASES - E2_CASES - E2S_CASES;
-			if w == 1 || w == 3 {
+			if w == 1 || w == 3 || w == 6 {
 				pacer::set_mode(pacer::Mode::Pacer);
 			}
 			if let Err(p) = catch(|| cancellation(w, ctx)) {
@@ -1057,7 +1057,7 @@ fn cancellation(which: u64, ctx: &mut Ctx) {
 					let v = 0.125 * (1 << i) as f32;
 					let h: Box<dyn SoundHandle> = match which {
 						0 | 2 => Box::new(m.play(rig::static_data(sr, rig::dc_frames(4, v)).loop_region(Region::from(..)).start_time(at)).expect("play")),
-						1 | 3 => {
+						1 | 3 | 6 => {
 							let (dec, st) = ScriptedDecoder::new(rig::dc_frames(8, v), sr, vec![2], 1);
 							stats.push(st);
 							Box::new(m.play(StreamingSoundData::from_decoder(dec).loop_region(Region::from(..)).start_time(at)).map_err(|_| ()).expect("play"))
@@ -1080,6 +1080,11 @@ fn cancellation(which: u64, ctx: &mut Ctx) {
 				let mut buf = vec![0.0f32; 4];
 				let pace = |n: u64| {
 					if which == 1 || which == 3 {
+						pacer::step_all_from(first_dec, n);
+					}
+				};
+				let pace_late = |n: u64| {
+					if which == 6 {
 						pacer::step_all_from(first_dec, n);
 					}
 				};
@@ -1155,8 +1160,15 @@ fn cancellation(which: u64, ctx: &mut Ctx) {
 					if n != want {
 						bad = Some(format!("num_clocks() = {} but {} clock handles are alive", n, want));
 					}
+					// the starved streams get their data now: the survivors' start times came and went meanwhile
+					if which == 6 {
+						for _ in 0..2 {
+							pace_late(8);
+							rig::callback(&mut m, &mut buf, 2, 2);
+						}
+					}
 					// the survivors (not paused variants) must have started by now: 4 s > tick 2
-					if which == 0 || which == 1 || which == 4 || which == 5 {
+					if which == 6 || which == 0 || which == 1 || which == 4 || which == 5 {
 						let heard = buf[0];
 						let mut want_sum = 0.0f32;
 						for i in 0..3 {
@@ -1180,6 +1192,7 @@ fn cancellation(which: u64, ctx: &mut Ctx) {
 					h.stop(tw(0.0));
 				}
 				pace(8);
+				pace_late(8);
 				rig::callback(&mut m, &mut buf, 2, 2);
 				drop(m);
 				for (k, st) in stats.iter().enumerate() {
